@@ -244,6 +244,9 @@ class SenseDevice(object):
 
     def mute(self):
         EVENTS.append('mute')
+        # switching the field off talks to the chip: the host link may fail
+        if nondet_bool():
+            raise IOError(errno.EIO, 'input/output error')
 
     def sense_tta(self, target):
         return self._sense('sense_tta', target)
